@@ -302,6 +302,13 @@ def run(tier):
                "D2C %s 0 %s" % (bn, common.wide([0x8000 | cells[-1]])), "C2D %s 0 %s" % (bn, common.wide([chars[-1]])),
                "FWD %s 0 %d - 12 %s - -" % (bn, len(chars), common.wide(chars[-1:] + chars[:-1])),
                "BWD %s 0 %d - 12 %s - -" % (bn, len(chars), common.wide(chars[-1:] + chars[:-1])), "FREE"]
+        samepath = (i % 3 == 1)
+        if samepath:
+            # the second table is written over the first one's file after lou_free(): same list name, new contents
+            # (what a program does that regenerates a table at a fixed path); nothing of the first may answer
+            ops = [o.replace(" " + bn + " ", " " + an + " ") for o in ops]
+            k = ops.index("FREE")
+            ops = ops[:k + 1] + ["TBL %s %s" % (an, common.hexbytes(tb.text()))] + ops[k + 1:]
         if coexist:
             ops = [o for o in ops[:-1] if o != "FREE"] + ["C2D %s 0 %s" % (an, common.wide(chars[:3])), "FREE"]
         pair_cases.append(common.Case("c11-p%d" % i, ["TBL %s %s" % (an, common.hexbytes(ta.text())), "TBL %s %s" % (bn, common.hexbytes(tb.text()))],
@@ -311,11 +318,15 @@ def run(tier):
     for c in pair_cases:
         if c.fault:
             continue
+        second = False
         for op, o in zip(c.ops, c.out):
             tk = op.split(" ")
             if tk[0] == "FREE":
                 continue
-            t = c.meta["a"] if tk[1] == c.meta["an"] else c.meta["b"]
+            if tk[0] == "TBL":
+                second = True
+                continue
+            t = c.meta["a"] if (tk[1] == c.meta["an"] and not second) else c.meta["b"]
             v.cov["evaluations"] += 1
             if tk[0] in ("C2D", "D2C"):
                 inp = common.unwide(tk[3])
